@@ -346,10 +346,14 @@ def warn_codes(wlist):
 def py_equal(a, b):
     """Python/numpy equality with NaN == NaN; str only equals str."""
     import numpy as np
+    # (byte strings compare as their text: HDF5 returns them as str; the
+    # type is judged separately)
+    if isinstance(a, bytes):
+        a = a.decode("utf-8", "replace")
+    if isinstance(b, bytes):
+        b = b.decode("utf-8", "replace")
     if isinstance(a, str) or isinstance(b, str):
         return isinstance(a, str) and isinstance(b, str) and a == b
-    if isinstance(a, bytes) or isinstance(b, bytes):
-        return type(a) is type(b) and a == b
     if a is None or b is None:
         return a is None and b is None
     try:
@@ -361,7 +365,10 @@ def py_equal(a, b):
         if aa.shape != bb.shape:
             return False
         if aa.dtype.kind in "OUS" or bb.dtype.kind in "OUS":
-            return bool(np.all(aa == bb))
+            if aa.ndim == 0:
+                return bool(aa == bb)
+            # mixed content: element by element
+            return all(py_equal(x, y) for x, y in zip(list(a), list(b)))
         return bool(np.array_equal(aa.astype(float), bb.astype(float),
                                    equal_nan=True))
     except Exception:
